@@ -340,14 +340,16 @@ func (c *compiler) compileType(y *Type, parent Leafable, isUnion bool) error {
 	}
 
 	if y.format == val.FmtBits || y.format == val.FmtBitsList {
+		// RFC 7950 9.7.4.2: same rule as enum values
 		nextPos := 0
-		for _, item := range y.bits {
-			if item.Position > 0 {
-				nextPos = item.Position
-			} else {
+		for i, item := range y.bits {
+			if !item.posSet {
 				item.Position = nextPos
+				item.posSet = true
 			}
-			nextPos++
+			if i == 0 || item.Position >= nextPos {
+				nextPos = item.Position + 1
+			}
 		}
 	}
 
